@@ -52,6 +52,8 @@ func (t *simTransport) RoundTrip(req *http.Request) (*http.Response, error) {
 	if t.err != nil {
 		return nil, t.err
 	}
+	// like a real transport, the body dies with the request's context
+	t.body.Ctx = req.Context()
 	return &http.Response{
 		StatusCode: t.status, Status: fmt.Sprintf("%d %s", t.status, http.StatusText(t.status)),
 		Proto: "HTTP/1.1", ProtoMajor: 1, ProtoMinor: 1, Header: http.Header{}, Body: t.body, Request: req, ContentLength: t.clen,
@@ -372,7 +374,12 @@ func (c19) Gen(rng *rand.Rand, tier string, k int) *Case {
 		}
 	}
 	if c.Entity == "file" {
-		c.Mode = []string{"present", "present", "missing", "directory"}[rng.Intn(4)]
+		c.Mode = []string{"present", "present", "missing", "directory", "symlink-to-directory", "symlink-to-file"}[rng.Intn(6)]
+		c.Faults = nil
+		if (c.Mode == "present" || c.Mode == "symlink-to-file") && rng.Intn(3) == 0 {
+			// the disk returns an I/O error after k bytes of the file, on every open
+			c.Faults = []FaultSpec{{Kind: "fs-read-budget", Name: ".csv", At: rng.Intn(len(c.Doc) + 1)}}
+		}
 	}
 	if (c.Entity == "json" || c.Entity == "tiingo-getsince") && rng.Intn(40) == 0 {
 		c.Pad = []int{70_000, 1_100_000, 2_300_000}[rng.Intn(3)]
@@ -468,6 +475,13 @@ func (c19) Run(c *Case, st *Stats) []Violation {
 	if len(c.Param) > 0 {
 		status = c.Param[0]
 	}
+	fsReadAt := -1
+	for _, f := range c.Faults {
+		if f.Kind == "fs-read-budget" {
+			fsReadAt = min(f.At, len(c.Doc))
+		}
+	}
+	plan := fsPlan(c.Faults)
 	var compare func() // runs after the simulation, compares delivered with reference
 	clientDone := false
 	var srcReader *FragReader
@@ -475,6 +489,9 @@ func (c19) Run(c *Case, st *Stats) []Violation {
 	oldTransport := http.DefaultTransport
 	defer func() { http.DefaultTransport = oldTransport }()
 	out := simulate(SimOpts{Policy: c.Policy, Record: c.Record, MaxSteps: 2_000_000}, func(s *simrt.Sim) {
+		if plan != nil {
+			s.SetFaults(plan)
+		}
 		simrt.GoKind("client", func() {
 			defer func() { clientDone = true }()
 			switch c.Entity {
@@ -572,6 +589,12 @@ func (c19) Run(c *Case, st *Stats) []Violation {
 					os.WriteFile(path, c.Doc, 0o644)
 				case "directory":
 					os.Mkdir(path, 0o755)
+				case "symlink-to-directory":
+					os.Mkdir(filepath.Join(dir, "real"), 0o755)
+					os.Symlink(filepath.Join(dir, "real"), path)
+				case "symlink-to-file":
+					os.WriteFile(filepath.Join(dir, "real.dat"), c.Doc, 0o644)
+					os.Symlink(filepath.Join(dir, "real.dat"), path)
 				}
 				repo := asset.NewFileSystemRepository(dir)
 				ch, err := repo.Get("A")
@@ -579,7 +602,7 @@ func (c19) Run(c *Case, st *Stats) []Violation {
 				if err2 == nil {
 					add("error-not-reported", "ReadFromCsvFile of a missing file returned no error")
 				}
-				if c.Mode == "missing" || c.Mode == "directory" {
+				if c.Mode == "missing" || c.Mode == "directory" || c.Mode == "symlink-to-directory" {
 					if err == nil {
 						var got []*asset.Snapshot
 						for {
@@ -612,7 +635,12 @@ func (c19) Run(c *Case, st *Stats) []Violation {
 				}
 				ld, lderr := repo.LastDate("A")
 				compare = func() {
-					want := refCsv[asset.Snapshot](bytes.NewReader(c.Doc), true)
+					var src io.Reader = bytes.NewReader(c.Doc)
+					if fsReadAt >= 0 {
+						// an I/O error after fsReadAt bytes of the file: the well-formed prefix ends there
+						src = &FragReader{Data: c.Doc, ErrAt: fsReadAt, Err: errInjected}
+					}
+					want := refCsv[asset.Snapshot](src, true)
 					if ok, why := sameSnapshots(got, want); !ok {
 						add("wrong-records", why)
 					}
@@ -629,8 +657,11 @@ func (c19) Run(c *Case, st *Stats) []Violation {
 		os.RemoveAll(dir)
 	}
 	st.noteSim(out)
+	for k, v := range plan.FiredKinds() {
+		st.Faults[k] += v
+	}
 	// evidence
-	faulted := len(c.Faults) > 0 || status != 200 || c.Mode == "missing" || c.Mode == "directory"
+	faulted := len(c.Faults) > 0 || status != 200 || c.Mode == "missing" || c.Mode == "directory" || c.Mode == "symlink-to-directory"
 	if errAt >= 0 {
 		if srcReader != nil && srcReader.Failed {
 			st.Faults["read-error-fired"]++
@@ -642,7 +673,7 @@ func (c19) Run(c *Case, st *Stats) []Violation {
 	if status != 200 {
 		st.Faults["http-non-200-status"]++
 	}
-	if c.Mode == "missing" || c.Mode == "directory" {
+	if c.Mode == "missing" || c.Mode == "directory" || c.Mode == "symlink-to-directory" {
 		st.Faults["unreadable-file:"+c.Mode]++
 	}
 	if srcReader != nil {
